@@ -205,6 +205,8 @@ structure ClassM where
   /-- class attributes left behind by `_process` along the MRO: `setattr(cls, name, f.default)` for every
   merged field with a plain default value (nearest class first) -/
   attrs : List (String × Val) := []
+  /-- the specs declared by the class body itself (`PaneInfo.specs`): what a subclass's MRO loop reads -/
+  own : List SpecM := []
   deriving Repr, Inhabited
 
 /-- `specs.update(new)`: an existing name keeps its position and takes the new spec; new names are appended -/
@@ -277,7 +279,52 @@ def processClass (d : ClassDeclM) (parent : Option ClassM) (parentBound : List (
               hook := match d.hook with | some h => some h | none => parent.bind (·.hook)
               attrs :=
                 let own := fields.filterMap fun f => match f.default with | .value v => some (f.name, v) | _ => none
-                own ++ (match parent with | some p => p.attrs.filter (fun a => !own.any (·.1 == a.1)) | none => []) }
+                own ++ (match parent with | some p => p.attrs.filter (fun a => !own.any (·.1 == a.1)) | none => [])
+              own := own }
+
+/-! ### Several bases: the MRO loop of `_process`
+
+`for base in reversed(cls.__mro__[1:])`: every pane class on the MRO contributes the specs its OWN body
+declared (`PaneInfo.specs`), then the type variables that class binds ITSELF (a subscripted alias
+`P[args]` declares nothing and binds `P`'s parameters; an ordinary class binds nothing) are replaced in
+everything collected so far.  The linearisation itself (C3) is Python's and is an input here. -/
+structure MroEntry where
+  own : List SpecM
+  bound : List (String × Ty) := []
+  deriving Repr, Inhabited
+
+/-- `anc` runs from the far end of the MRO to the nearest base -/
+def mroSpecs (anc : List MroEntry) : List SpecM :=
+  anc.foldl (fun acc e => (specsUpdate acc e.own).map fun s => { s with ty := substTy e.bound s.ty }) []
+
+/-- `processClass` with everything that is looked up along the MRO made explicit: the options of the
+nearest pane base, the merged inherited specs, the class-attribute defaults and `__post_init__` found
+first on the MRO -/
+def processClassMro (d : ClassDeclM) (baseOpts : Opts) (inherited : List SpecM) (inhAttrs : List (String × Val))
+    (inhHook : Option String) (parentParams : List String) : Except ClassErr ClassM :=
+  match baseOpts.apply d.opts (Facts.classHandlersInherit == some true) with
+  | .error e => .error e
+  | .ok opts =>
+    let own := bodySpecs opts.kwOnly (fun n => inhAttrs.lookup n) d.body
+    let specs := specsUpdate inherited own
+    match specs.mapM fun s => makeField s opts.inRename opts.outRename (Facts.makeFieldAliasesIncludeRenamed == some true) with
+    | .error e => .error e
+    | .ok fields0 =>
+      let zipped := fields0.zip specs
+      let ordered := zipped.filter (fun p => !p.1.kwOnly) ++ zipped.filter (fun p => p.1.kwOnly)
+      let fields := ordered.map (·.1)
+      match posBounds opts.inFormat fields 0 0 false with
+      | .error e => .error e
+      | .ok (mn, mx) =>
+        .ok { name := d.name, opts := opts, specs := specs, fields := fields
+              fieldTys := ordered.map (·.2.ty), fieldConv := ordered.map (·.2.converter)
+              minPos := mn, maxPos := mx
+              params := mergeParams Facts.paramMerge parentParams d.tvars
+              hook := match d.hook with | some h => some h | none => inhHook
+              attrs :=
+                let ownA := fields.filterMap fun f => match f.default with | .value v => some (f.name, v) | _ => none
+                ownA ++ inhAttrs.filter (fun a => !ownA.any (·.1 == a.1))
+              own := own }
 
 /-- `Cls[args]` (`_make_subclass`): binds `__parameters__` pointwise; arity is checked by `typing` -/
 def subscriptBound (c : ClassM) (args : List Ty) : Except ClassErr (List (String × Ty)) :=
